@@ -823,6 +823,30 @@ class Machine(object):
             out.append(exact_int(x, what))
         return tuple(out)
 
+    def store_key(self, vals):
+        """PUT, GET and EXISTS identify a value by "a sequence of one or more subscripts" (manual, table 8): the same
+        subscript values name the same entry in all three.  How a non-integer subscript is converted is not documented;
+        it is only assumed that the conversion is one function with a result between floor and ceil.  A non-integer
+        subscript that could share an entry with a different subscript under such a conversion is not given a meaning."""
+        key = []
+        for x in vals:
+            if x.e > 0:
+                raise Undefined("unstable", "store subscript of an inexact value")
+            if abs(x.v) > 1e9:
+                raise Undefined("range_store_subscript")
+            key.append(int(x.v) if x.v == math.floor(x.v) else x.v)
+        key = tuple(key)
+        isfloat = any(isinstance(c, float) for c in key)
+        if isfloat:
+            self.count("store_noninteger_subscript")
+        if isfloat or any(isinstance(c, float) for k2 in self.store for c in k2):
+            def cand(c):
+                return (c, c) if isinstance(c, int) else (math.floor(c), math.ceil(c))
+            for k2 in self.store:
+                if k2 != key and len(k2) == len(key) and all(cand(a)[0] <= cand(b)[1] and cand(b)[0] <= cand(a)[1] for a, b in zip(key, k2)):
+                    raise Undefined("store_subscript_conversion_ambiguous")
+        return key
+
     def arr_get(self, n, ln):
         name = n[1]
         if name not in self.arrays:
@@ -975,7 +999,7 @@ class Machine(object):
         if f in ("GET", "EXISTS"):
             if not a:
                 raise BasicError("wrong number of arguments for " + f, ln)
-            key = tuple(exact_int(need_num(x, ln), "store_subscript") for x in a)
+            key = self.store_key([need_num(x, ln) for x in a])
             if f == "GET":
                 return self.store.get(key, Num(0.0))
             return Num(1.0 if key in self.store else 0.0)
@@ -1330,7 +1354,7 @@ class Machine(object):
                 pc += 1
             elif k == "put":
                 v = need_num(self.ev(a[1][0], ln), ln)
-                key = tuple(exact_int(need_num(self.ev(x, ln), ln), "store_subscript") for x in a[1][1:])
+                key = self.store_key([need_num(self.ev(x, ln), ln) for x in a[1][1:]])
                 self.store[key] = v
                 self.count("stmt_put")
                 pc += 1
@@ -1502,6 +1526,9 @@ class Gen(object):
         self.rarr = {}
         self.sarr = {}
         self.store_keys = [(1,), (2,), (3,), (1, 1), (1, 2), (2, 5, 1)]
+        # computed, non-integer subscripts: every one lies strictly inside its own pair of neighbouring integers, no two
+        # share a neighbour, so PUT / GET / EXISTS with the same expression must meet whatever the conversion is
+        self.float_keys = ["10.6", "1.3 * 10 - 0.4", "14.5", "33 / 2", "18.6", "2.6 * 8", "0.29*100", "22.4", "24.5 - 1e-9", "2, 7.6", "60.4, 1", "2.6*3, 30.5"]
         self.nsubs = 0
         self.sub_cost = {}
         self.sub_label = {}
@@ -1781,8 +1808,7 @@ class Gen(object):
                 return Nd(self.kw("SGN") + "(" + p.txt + ")", P_ATOM, 1, 1, True)
             return Nd(self.kw("SGN") + "(-" + self.at(p, P_POW + 1) + ")", P_ATOM, -1, -1, True)
         if c == 17:
-            k = self.pick(self.store_keys)
-            return Nd(self.kw("EXISTS") + "(" + ",".join(str(x) for x in k) + ")", P_ATOM, 0, 1, True)
+            return Nd(self.kw("EXISTS") + "(" + self.key_text() + ")", P_ATOM, 0, 1, True)
         if c == 18:
             a = self.clean(self.fit_int(self.int_expr(d - 1), -99999, 99999))
             self.avoid("str_layout_checked_through_val_or_trim")
@@ -1977,8 +2003,7 @@ class Gen(object):
             a = self.pick(sorted(self.rarr))
             return Nd(self.name(a) + "(" + self.subscript(self.rarr[a]) + ")", P_ATOM, -1e6, 1e6)
         if c == 7:
-            k = self.pick(self.store_keys)
-            return Nd(self.kw("GET") + "(" + ", ".join(str(x) for x in k) + ")", P_ATOM, -1e6, 1e6)
+            return Nd(self.kw("GET") + "(" + self.key_text() + ")", P_ATOM, -1e6, 1e6)
         if c == 8 and self.loopvars:
             n = self.pick(sorted(self.loopvars))
             v = self.loopvars[n]
@@ -2271,10 +2296,24 @@ class Gen(object):
             return self.kw("VAL") + "(" + self.kw("STR$") + "(" + t + "))"
         return t
 
+    def key_text(self):
+        if self.chance(0.3):
+            self.features.add("store_noninteger_subscript")
+            cands = [n for n, v in self.loopvars.items() if v[2] and v[0] >= -8 and v[1] <= 8] + [n for n, v in self.counters.items() if v[1] <= 8]
+            if cands and self.chance(0.4):
+                t = "100" + self.sp("+") + self.name(self.pick(cands)) + self.sp("*") + "2.6"
+                return t if self.chance(0.7) else "3, " + t
+            return self.pick(self.float_keys)
+        return ", ".join(str(x) for x in self.pick(self.store_keys))
+
     def st_put(self, d):
-        k = self.pick(self.store_keys)
         e = self.fit_real_var(self.num_expr(d))
-        return self.kw("PUT") + "(" + e.txt + ", " + ", ".join(str(x) for x in k) + ")"
+        if self.chance(0.3):
+            # a value that is certainly not 0, so that a missed entry shows
+            e = self.pos_expr(1)
+            if e.hi > 1e6:
+                e = self.pos_lit()
+        return self.kw("PUT") + "(" + e.txt + ", " + self.key_text() + ")"
 
     def st_read(self):
         n = self.pick([1, 1, 2, 3])
@@ -2334,6 +2373,8 @@ class Gen(object):
             # RETURN from inside loops of the subroutine: the loops end with it
             self.features.add("return_in_loop")
             return [[None, self.kw("IF") + " " + self.loop_condition(d) + " " + self.kw("THEN") + " " + self.kw("RETURN")]]
+        if (self.iarr or self.rarr or self.sarr) and self.mult <= 40 and self.chance(0.07):
+            return self.array_ops(d)
         c = self.sel(31)
         if self.mult * 4 > 3000 or depth <= 0:
             c = c % 14
@@ -2371,6 +2412,76 @@ class Gen(object):
             k = self.r.randint(int(math.floor(lo)), int(math.ceil(hi)))
             return self.name(e["var"]) + self.sp(self.pick([">=", "<=", "=", ">", "<"])) + (str(k) if k >= 0 else "-" + str(-k))
         return self.condition(d).txt
+
+    def array_ops(self, d):
+        """assignments whose right-hand side reads other elements of the array assigned to (fill, shift, reversal,
+        prefix combination, literal indices), followed by PUNCH of the elements"""
+        kinds = [k for k, t in (("i", self.iarr), ("r", self.rarr), ("s", self.sarr), ("s", self.sarr)) if t]
+        kind = self.pick(kinds)
+        table = {"i": self.iarr, "r": self.rarr, "s": self.sarr}[kind]
+        a = self.pick(sorted(table))
+        n = table[a]
+        self.features.add("array_self_reference")
+        free = [x + self.sfx for x in LOOP_NAMES if x + self.sfx not in self.loopvars]
+
+        def A(idx):
+            return self.name(a) + "(" + idx + ")"
+
+        def comb(x, y):
+            if kind == "s":
+                return self.pick([self.kw("MID$") + "(" + x + self.sp("+") + y + ", 1, 30)", self.kw("MID$") + "(" + y + ", 2)" + self.sp("+") + self.kw("MID$") + "(" + x + ", 1, 9)",
+                                  self.kw("MID$") + "(" + x + ", 1, 12)" + self.sp("+") + '"' + self.pick("xyz+") + '"' + self.sp("+") + self.kw("MID$") + "(" + y + ", 1, 12)"])
+            if kind == "r":
+                return self.pick([x + self.sp("*") + "0.5" + self.sp("+") + y, "(" + x + self.sp("-") + y + ")" + self.sp("/") + "2", y + self.sp("-") + x + self.sp("*") + ".25"])
+            return self.pick([x + self.sp("+") + y, x + self.sp("-") + y, "2" + self.sp("*") + y + self.sp("-") + x])
+
+        def one(x):
+            if kind == "s":
+                return self.pick([self.kw("MID$") + "(" + x + self.sp("+") + '"' + self.pick("abQ:") + '", 1, 30)', '"' + self.pick("<>#") .replace("#", "_") + '"' + self.sp("+") + self.kw("MID$") + "(" + x + ", 1, 20)", x])
+            return self.pick([x, x + self.sp("+") + str(self.r.randint(1, 9)), x + self.sp("*") + "-1" if kind == "r" else x + self.sp("-") + "1"])
+
+        def loop(v, lo, hi, step, body):
+            head = self.kw("FOR") + " " + self.name(v) + " = %d " % lo + self.kw("TO") + " %d" % hi + ((" " + self.kw("STEP") + " %d" % step) if step != 1 else "")
+            nxt = self.kw("NEXT") + " " + self.name(v)
+            if self.chance(0.5) and len(body) == 1:
+                return [[None, head + " : " + body[0] + " : " + nxt]]
+            return [[None, head]] + [[None, b] for b in body] + [[None, nxt]]
+
+        out = []
+        v = self.pick(free) if free else None
+        vn = self.name(v) if v else None
+        ops = ["literal", "literal"] + (["shift_down", "shift_up", "reverse"] + (["prefix", "prefix"] if n >= 2 else []) if v else [])
+        op = self.pick(ops)
+        if v and (op == "prefix" or self.chance(0.6)):
+            init = {"i": vn + self.sp("*") + str(self.r.randint(1, 9)) + self.sp("+") + str(self.r.randint(0, 9)),
+                    "r": vn + self.sp("*") + "1.5" + self.sp("-") + "2.25",
+                    "s": self.kw("CHR$") + "(" + str(self.pick([65, 97, 48])) + self.sp("+") + vn + ")" + self.sp("+") + self.str_lit(0, 3).txt}[kind]
+            out += loop(v, 0, n, 1, [A(vn) + " = " + init])
+        if op == "literal":
+            p_ = self.r.randint(0, n)
+            q_ = self.r.randint(0, n)
+            r_ = self.pick([x for x in range(n + 1) if x != p_])
+            out.append([None, A(str(p_)) + self.pick([" = ", "="]) + comb(A(str(q_)), A(str(r_)))])
+            if self.chance(0.5):
+                out.append([None, A(str(r_)) + " = " + one(A(str(p_)))])
+        elif op == "shift_down":
+            out += loop(v, 0, n - 1, 1, [A(vn) + " = " + one(A(vn + self.sp("+") + "1"))])
+        elif op == "shift_up":
+            out += loop(v, n, 1, -1, [A(vn) + " = " + one(A(vn + self.sp("-") + "1"))])
+        elif op == "prefix":
+            out += loop(v, 2, n, 1, [A(vn) + " = " + comb(A(vn + self.sp("-") + "1"), A(vn + self.sp("-") + "2"))])
+        else:
+            tmp = self.name({"i": "idx", "r": "acc", "s": "w$"}[kind])
+            out += loop(v, 0, (n - 1) // 2, 1, [tmp + " = " + A(vn), A(vn) + " = " + A(str(n) + self.sp("-") + vn), A(str(n) + self.sp("-") + vn) + " = " + tmp])
+        self.cost += 6 * (n + 2) * self.mult
+        if v and self.punches + (n + 1) * self.mult <= 400 and self.chance(0.7):
+            item = A(vn) if self.chance(0.7) or kind != "s" else self.kw("LEN") + "(" + A(vn) + ")"
+            out += loop(v, 0, n, 1, [self.kw("PUNCH") + " " + item])
+            self.punches += (n + 1) * self.mult
+        else:
+            out.append([None, self.kw("PUNCH") + " " + A("0") + ", " + A(str(n)) + ", " + A(str(n // 2))])
+            self.punches += 3 * self.mult
+        return out
 
     def nested_exit(self, depth, d):
         """a loop inside a loop, the inner one left early by GOTO, so that the NEXT / WEND of the outer loop finds the
@@ -2660,7 +2771,7 @@ class Gen(object):
         dims = []
         for names, table in ((IARR_NAMES, self.iarr), (RARR_NAMES, self.rarr), (SARR_NAMES, self.sarr)):
             for n in names:
-                if self.chance(0.35):
+                if self.chance(0.5):
                     table[n] = r.randint(1, 8)
                     sz = table[n]
                     t = str(sz)
